@@ -271,7 +271,7 @@ def std_evidence(ck, prefixes, scripts, gscripts, stats, impl_out, extra=None):
 
 def check_C01(ck):
     r = check_dispatch_family(ck, 1200, 20000, "C01: tables, slots, dispatch data and every call outcome")
-    std_evidence(ck, ["C01"], *r[:5])
+    std_evidence(ck, ["C01"], *r[:4])
 
 
 def check_C03(ck):
@@ -1688,3 +1688,73 @@ def check_C16(ck):
 
 
 check_C16.needs_hdyn = False
+
+
+# ----------------------------------------------------------------------------------------------------
+# C11 argument passing (generated programs) — also carries the smart-pointer glue of C09
+
+KNOWN_C11 = ("nv cat=value-prvalue", "nv cat=value-xvalue", "nv cat=moveonly")
+
+
+def check_C11(ck):
+    import hprog
+    policies = ["default"] if ck.tier == "quick" else ["default", "::yorel::yomm2::policy::debug", "::yorel::yomm2::policy::release"]
+    cases = [(s, p) for s in hprog.SHAPES for p in policies]
+    programs = [("args-%s-%d" % (s, i), hprog.prog_args(s, p)) for i, (s, p) in enumerate(cases)]
+    res = hprog.build_and_run(programs, jobs=16)
+    scripts = [("args-%s-%d" % (s, i), ["thunk-expect " + s]) for i, (s, p) in enumerate(cases)]
+    model = verif.run_model(scripts)
+    known = [k for k in verif.load_known() if k.get("property") == "C11" and k.get("status") == "open"]
+    known_still = 0
+    lines_compared = 0
+    for (name, _), (s, p) in zip(scripts, cases):
+        rc, so, se = res[name]
+        got = so.splitlines()
+        want = model.get(name, [])
+        # the open known finding: by-value parameters moved more than once; compared separately
+        def split(ls):
+            return [l for l in ls if not l.startswith(KNOWN_C11)], [l for l in ls if l.startswith(KNOWN_C11)]
+        g1, gk = split(got)
+        w1, wk = split(want)
+        lines_compared += len(g1)
+        if rc != 0 or g1 != w1:
+            if not ck.violations:
+                diff = [x for x in zip(g1, w1) if x[0] != x[1]][:3]
+                found = rc == 0 and bool(diff)
+                path = verif.write_replay("C11", name, {
+                    "property": "C11", "kind": ("failing input: a definition did not receive the caller's argument as specified" if found else
+                                                "the generated program does not compile, crashed, or differs in shape from the model"),
+                    "shape": s, "policy": p, "differences(program, required)": diff, "rc": rc, "stderr": se[-1500:],
+                    "program": "tools/hprog.py prog_args(%r, %r)" % (s, p)})
+                ck.violation(path, found)
+        # known finding: by-value moves; anything else in those lines must still be as required
+        for a, b in zip(gk, wk):
+            a2 = re.sub(r"moves_le1=\d", "moves_le1=*", a)
+            b2 = re.sub(r"moves_le1=\d", "moves_le1=*", b)
+            if a2 != b2 and not ck.violations:
+                path = verif.write_replay("C11", name + "-byvalue", {"property": "C11", "kind": "failing input: a by-value argument was copied or lost",
+                                                                      "shape": s, "program_line": a, "required": b})
+                ck.violation(path, True)
+            if "moves_le1=0" in a:
+                known_still += 1
+                if not known and not ck.violations:
+                    path = verif.write_replay("C11", name + "-moves", {"property": "C11", "kind": "failing input: an rvalue argument is moved more than once", "program_line": a})
+                    ck.violation(path, True)
+    if known and known_still:
+        ck.known_observed = {k.get("witness") for k in known}
+    ck.coverage = proof_coverage(ck, ["C11"], {
+        "evaluations": len(cases), "distinct_nontrivial": len(cases), "programs": len(cases), "disagreements_checked": len(ck.violations),
+        "rule": "one generated program per inheritance shape (single, second base at non-zero offset, virtual base, three levels, virtual + levels) x policy; each "
+                "instantiates 12 methods with the virtual parameter kinds (reference, const reference, rvalue reference, pointer, shared_ptr, const shared_ptr&, "
+                "virtual_ptr, virtual_shared_ptr by value and by const reference) at positions 0 and 1, and 6 methods with non-virtual categories (by value from "
+                "prvalue / xvalue / lvalue, lvalue reference, rvalue reference, move-only, returned value and reference); inside the definitions the address as the "
+                "definition's class, dynamic_cast<void*> (most derived object), shared ownership and copy / move counters are compared with the caller's",
+        "observation_lines_compared": lines_compared, "known_finding_lines": known_still,
+        "traces_validated_against_impl": len(cases),
+        "samples": [{"shape": c[0], "policy": c[1]} for c in cases[:2]],
+    })
+    ck.assumptions = ["PARTIAL by nature: that static_cast / dynamic_cast adjust addresses correctly is the C++ compiler's semantics, observed per program, not proved",
+                      "by-value parameters: see the open known finding (moved once per call boundary)"]
+
+
+check_C11.needs_hdyn = False
